@@ -1,6 +1,7 @@
 """C17 -- launcher tasks do what they say or are rejected."""
 import asyncio
 import copy
+import logging
 import os
 import shutil
 import tempfile
@@ -32,7 +33,7 @@ RULE = ('histories of 2-6 tasks from {create(persist), launch(persist, nowait), 
         '>=1 task was honoured and the model predicted a reply')
 RULE += ('; also: task types resembling launcher attributes, processes failing after recording a result, unpicklable processes, a second launcher on the same persister, tags never saved, a launcher built outside the serving loop')
 ASSUMPTIONS = ['the RabbitMQ transport is replaced by the in-process communicator of pv/comm.py', 'errors may arrive wrapped in RemoteException']
-REQUIRED = ['redelivered_after_rejection', 'launcher_loader_of_its_own_class', 'paused_at_start_played', 'unknown_pid_kinds/str', 'unknown_pid_kinds/int', 'unknown_pid_kinds/UUID', 'unsaveable_persist_tasks', 'second_launcher_continues', 'late_failures', 'tasks/create', 'tasks/launch', 'tasks/continue', 'tasks/bogus', 'rejected', 'persisted_checks', 'nowait_replies', 'wait_replies', 'error_replies',
+REQUIRED = ['log_records_formatted', 'redelivered_after_rejection', 'launcher_loader_of_its_own_class', 'paused_at_start_played', 'unknown_pid_kinds/str', 'unknown_pid_kinds/int', 'unknown_pid_kinds/UUID', 'unsaveable_persist_tasks', 'second_launcher_continues', 'late_failures', 'tasks/create', 'tasks/launch', 'tasks/continue', 'tasks/bogus', 'rejected', 'persisted_checks', 'nowait_replies', 'wait_replies', 'error_replies',
             'route/direct', 'route/thread', 'route/async', 'persister/none', 'persister/mem', 'persister/pickle', 'persister/failing', 'loader/custom',
             'loader/custom_ctx', 'continued_from_tag', 'traces_checked', 'killed_replies', 'launcher_built_elsewhere', 'absent_tag_with_untagged_checkpoint', 'counted_persister']
 BOUNDS = {'quick': '400 histories', 'thorough': '6000 histories'}
@@ -176,6 +177,16 @@ def _reply(fut):
     return ['result', _jsonable(fut.result())]
 
 
+class _StrictLogHandler(logging.Handler):
+    def __init__(self):
+        super().__init__(level=logging.DEBUG)
+        self.seen = 0
+
+    def emit(self, record):
+        record.getMessage()  # (raises when the arguments do not fit the format)
+        self.seen += 1
+
+
 def run_case(case):
     V = judges.V
     obs = {'counted_persister': int(bool(case.get('counted'))), 'tasks': {}, 'rejected': 0, 'persisted_checks': 0, 'nowait_replies': 0, 'wait_replies': 0, 'error_replies': 0, 'route': {case['route']: 1},
@@ -185,6 +196,11 @@ def run_case(case):
     loaders.set_object_loader(None)
     c19.CountingLoader.loads = 0
     label = '%s/%s/%s' % (case['persister'], case['loader'], case['route'])
+    # the application has a log handler that does not swallow formatting errors (pytest's capturing handler is one): a log call of the
+    # launcher whose arguments do not fit its format then fails the task it was made for
+    strict = _StrictLogHandler()
+    logging.getLogger('plumpy').addHandler(strict)
+    logging.disable(logging.NOTSET)  # (the harness runs with logging switched off otherwise)
     try:
         with Driver(30000) as drv:
             loop = drv.loop
@@ -497,6 +513,9 @@ def run_case(case):
     except BudgetExceeded:
         return {'viol': [], 'obs': obs, 'inconclusive': 'budget', 'key': case, 'nontrivial': False}
     finally:
+        logging.disable(logging.CRITICAL)
+        logging.getLogger('plumpy').removeHandler(strict)
+        obs['log_records_formatted'] = strict.seen
         loaders.set_object_loader(None)
         shutil.rmtree(workdir, ignore_errors=True)
     res = {'viol': judges._dedupe(viol), 'obs': obs, 'key': case, 'nontrivial': obs['traces_checked'] > 0 or obs['persisted_checks'] > 0}
